@@ -62,6 +62,7 @@ type c19World struct {
 	rootPEM  map[int]string
 	class    string
 	hist     map[string]int
+	onRetry  func(r *Request) // lane reqset: what the client-level before-request middleware does on a retry attempt
 }
 
 const c19RespMark = "RESPBODY-MARK"
